@@ -70,6 +70,19 @@ def make_form(form, g, T, topo):
     raise ValueError(form)
 
 
+def chain_product(topo):
+    """P(V) written as the raw product of P(v_i | v_1 .. v_{i-1}) along the order."""
+    from y0.dsl import Product
+
+    return Product(tuple(plain_conditional([n], list(topo[:i])) for i, n in enumerate(topo)))
+
+
+def sum_over(e, names):
+    from y0.dsl import Sum, Variable
+
+    return Sum(expression=e, ranges=frozenset(Variable(n) for n in names))
+
+
 def anc_within(g: GSpec, T, C):
     """Ancestors (inclusive) of C in the sub-graph induced by T."""
     T = set(T)
@@ -153,6 +166,29 @@ def work(job):
     den = Denoter(model, vocab=obs_vocab(g.nodes))
     res = []
     orders = topo_orders(g, n_orders)
+    # Lemma 4 on its own: Q[A] of an ancestral set A of G handed over as a product / sum (never a plain probability, so
+    # the Lemma-4 routine is the one used), for every topological order when the graph has <= 4 nodes: the positions
+    # that a district occupies inside the order (gaps, first position or not) are what its index arithmetic depends on
+    direct_orders = topo_orders(g, None) if len(g.nodes) <= 4 else orders
+    if len(g.nodes) < 2 or (len(g.nodes) >= 5 and tier() == "quick"):
+        direct_orders = []  # (five-node graphs: thorough tier only)
+    if tier() == "quick" and len(g.nodes) == 4 and len(direct_orders) > 3:
+        direct_orders = direct_orders[seed() % 3 :: 3]  # every third order of a 4-node graph in the quick tier
+    for topo in direct_orders:
+        chain = chain_product(topo)
+        anc_sets = {frozenset(g.nodes)} | {frozenset(g.ancestors(S)) for k in ((1,) if tier() == "quick" else (1, 2)) for S in itt.combinations(g.nodes, k)}
+        for A in sorted(anc_sets, key=sorted):
+            rest = [n for n in topo if n not in A]
+            qA = sum_over(chain, rest) if rest else chain
+            for D in g.districts(within=set(A)):
+                recD = {"g": g.to_json(), "topo": list(topo), "T": sorted(A), "A": sorted(A), "C": sorted(D), "kind": "lemma4-direct"}
+                try:
+                    e = run_lemma4(D, A, qA, topo)
+                except Exception as ex:  # noqa: BLE001
+                    res.append(dict(recD, status="crash", exc=f"{type(ex).__name__}: {short(ex, 120)}"))
+                    continue
+                r4 = decide(g, e, D, model, den, timeout_ms)
+                res.append(dict(recD, status="ok", out=str(e), **r4))
     for topo in orders:
         for T in g.districts():
             rec0 = {"g": g.to_json(), "topo": list(topo), "T": sorted(T)}
@@ -305,6 +341,7 @@ def run() -> int:
     rep.bounds = {
         "graphs": "both tiers: 48 (quick) / 400 (thorough) pseudo-random five-node single-district graphs (seeded by VERIF_SEED); a seed-chosen slice (quick 1/16, thorough 1/3) of 268 five-node graphs with nested districts (the graphs of vf/data/id_deep5.json), one topological order; quick: ADMGs <=3 nodes (two labellings, every topological order), curated 4-node graphs (2 orders), 1/4 of the 4-node classes (2 orders); thorough: all ADMGs <=4 nodes (two labellings, 2 orders), curated list",
         "inputs": "every district T; Q[T] = the library's own Lemma-1 product from P(V) and, when every node outside T is an unconfounded root, also the plain conditional P(T | V - T); each form also population-tagged (PP[pi*]), since tian_id.py has separate branches for it (both tiers: every 4-node class with a 3-node district and such a root); every non-empty C subset of T inducing a single district; for every proper ancestral set A = An(C) of G_T: Q[A] by Lemma 3 (compute_ancestral_set_q_value) and Q[D] for EVERY district D of G_A by compute_c_factor on that derived expression (Lemma 4)",
+        "lemma4_direct": "for every graph of the run, every topological order when it has <= 4 nodes (quick: every third order of a 4-node graph and |S| = 1; five-node graphs: thorough tier only, the orders above), every ancestral set A = V or An(S), |S| <= 2: Q[A] handed over as the raw chain-rule product of P(v_i | v_1..v_i-1), summed over V - A, and Q[D] requested for every district D of G_A (the Lemma-4 routine is selected because Q[A] is a product / sum)",
         "models": "all positive binary SCMs, one binary latent per bidirected edge; all value assignments of all variables in one query",
         "per_query_timeout_ms": TIMEOUT_MS[t],
         "PYTHONHASHSEED": hashseed(),
@@ -351,11 +388,21 @@ def run() -> int:
     return rep.finish()
 
 
+class _Done(Exception):
+    pass
+
+
 def replay(payload: dict) -> int:
     g = GSpec.from_json(payload["graph"])
     topo, T, C = payload["topo"], set(payload["T"]), payload.get("C")
     print("graph", g.key(), "order", topo, "T", sorted(T), "C", C)
     try:
+        if payload["call"] == "lemma4-direct":
+            A = set(payload["A"])
+            chain = chain_product(topo)
+            rest = [n for n in topo if n not in A]
+            expr, S = run_lemma4(set(C), A, sum_over(chain, rest) if rest else chain, topo), set(C)
+            raise _Done
         qT = make_form(payload.get("form") or (payload["call"][3:] if payload["call"].startswith("qT-") else "lemma1"), g, T, topo)
         if payload["call"] in ("lemma3", "lemma4"):
             A = set(payload["A"])
@@ -363,6 +410,8 @@ def replay(payload: dict) -> int:
             expr, S = (qA, A) if payload["call"] == "lemma3" else (run_lemma4(set(C), A, qA, topo), set(C))
         else:
             expr, S = (qT, T) if payload["call"] == "lemma1" or payload["call"].startswith("qT-") else (run_identify(g, set(C), T, qT, topo), set(C))
+    except _Done:
+        pass
     except Exception as e:  # noqa: BLE001
         print(f"raised {type(e).__name__}: {e}")
         return 1 if payload["kind"] == "crash" else 0
